@@ -841,7 +841,7 @@ macro_rules! pt_prop {
             fn cases(&self, tier: Tier) -> usize {
                 match tier {
                     Tier::Quick => $quick,
-                    Tier::Thorough => $quick * 20,
+                    Tier::Thorough => $quick * 6,
                 }
             }
             fn tape_len(&self, _t: Tier) -> usize {
@@ -861,11 +861,11 @@ macro_rules! pt_prop {
     };
 }
 
-pt_prop!(C01, "C01", check_c01, None, 4000,
+pt_prop!(C01, "C01", check_c01, None, 20000,
     "generated conventional / battery-electric unit (55%) or consist of 1-8 units under RESGreedy/Proportional (45%), generated maps/ratings/SOC, 1-40 (thorough 1-80) adversarial steps; after every accepted step all per-step power balances, all cumulative energy balances, every energy_* == own sum of pwr_* x dt, SOC == soc0 - chemical energy/capacity, consist totals == sums over units. Non-trivial: >=5 accepted steps incl. >=1 traction and >=1 braking step; distinct = distinct case JSON", false, 0.0);
-pt_prop!(C08, "C08", check_c08, None, 4000,
+pt_prop!(C08, "C08", check_c08, None, 20000,
     "same histories as C01 (stand-alone units get engine-off steps with 12% probability); per accepted step: every loss >= 0, every eta in (0,1], |out| <= |in| per converter and direction, cumulative fuel/loss/dyn-brake energies non-decreasing, dynamic braking only under braking demand, engine off => zero fuel, idle fuel and aux. Non-trivial: >=3 accepted steps incl. an engine-off step or a regenerating step", false, 0.0);
-pt_prop!(C09, "C09", check_c09, None, 4000,
+pt_prop!(C09, "C09", check_c09, None, 20000,
     "same adversarial histories; after every accepted step: FC shaft power within rating and within the transient limit published for the step (code tolerance 1e-3), published transient limit <= min(rating, max(prev shaft power + rating/lag*dt, init)), generator/drivetrain/battery within ratings, battery power within published SOC-dependent limits, tractive power <= published unit limit, regen <= published regen limit, SOC inside window, published limits in [0 (or -aux), rating]. Non-trivial: accepted steps at 0.999-1.0005 of >=2 different limits, or one such plus a correctly rejected over-limit request; 30 % of the stand-alone histories carry on with the same object after a rejected request (a rejection must not move the engine's ramp base)", false, 0.3);
-pt_prop!(C10, "C10", check_c10, Some(true), 4000,
+pt_prop!(C10, "C10", check_c10, Some(true), 20000,
     "consists of 1-8 units (any mix/order), both shipped policies, adversarial demand histories; after every accepted step: sum of unit powers == request (1e-8), unit traction <= its published limit, unit braking <= drivetrain rating, no opposite-sign unit, regen only on battery units and <= their published regen limit, RESGreedy: fuel units idle while battery capability suffices, else battery units at limit and fuel units cover exactly the deficit. Non-trivial: mixed consist that saw the deficit regime or braking beyond total regen", true, 0.0);
